@@ -192,6 +192,11 @@ def judge(inst):
     parsed, traces, err = pw.run_phase(paths, d, trace=False, **opts)
     if err:
         return [V("error", f"whatshap phase failed: {err}")], False
+    raw = open(os.path.join(d, "out.vcf"), "rb").read()
+    bad = sorted({b for b in raw if b < 9 or (13 < b < 32)})
+    if bad:
+        line = next((l for l in raw.split(b"\n") if any(c in l for c in bytes(bad))), b"")
+        viols.append(V("malformed-output", f"the output contains control characters {bad}: {line[:200]!r}"))
     inp = synth.parse_vcf(paths["vcf"])
     sel_samples = opts.get("samples") or SAMPLES
     sel_chroms = opts.get("chromosomes") or ["chr1", "chr2"]
@@ -252,8 +257,9 @@ def judge(inst):
 def option_vectors(T):
     out = [dict(tag="PS"), dict(tag="HP"), dict(tag="PS", samples=["S1", "S2"]), dict(tag="PS", chromosomes=["chr1"]), dict(tag="HP", samples=["S1"], chromosomes=["chr2"]), dict(tag="PS", only_snvs=True)]
     out.append(dict(tag="PS", distrust_genotypes=True, include_homozygous=True))
+    out.append(dict(tag="HP", distrust_genotypes=True))
     if T:
-        out += [dict(tag="HP", distrust_genotypes=True), dict(tag="HP", only_snvs=True, samples=["S2"]), dict(tag="PS", chromosomes=["chr2"])]
+        out += [dict(tag="HP", distrust_genotypes=True, include_homozygous=True), dict(tag="HP", only_snvs=True, samples=["S2"]), dict(tag="PS", chromosomes=["chr2"])]
     return out
 
 
